@@ -59,6 +59,7 @@ class Actor:
         self.items = {}  # id -> library item object (identity matters for remove-by-object)
         self.last_sha = None
         self.assigned_list = None  # the list object last assigned to .tracks / .platforms
+        self.fmt = FMT[cls]  # format code this instance was made with (3D blocks come in two)
         self.links = []  # model of a 3D block's marker links
         self.ctor_list = None  # the list object handed to the constructor (if any)
         self.ctor_ids = None
@@ -116,10 +117,13 @@ def wrong_kind(kind, cls=None, n=0):
             "other_item": Event("e", [1.0])}[kind]
 
 
-def new_block(cls, n):
+def new_block(cls, n, fmt=None):
     if cls == "emg":
         return EMG(1000, n)
     if cls == "data3d":
+        if fmt == 2:
+            from basictdf.tdfData3D import Data3dBlockFormat, Flags
+            return Data3D(100, n, _v3(), _eye(), _v3(), 0.0, Flags.rawData, Data3dBlockFormat.byTrackWithoutLinks)
         return Data3D(100, n, _v3(), _eye(), _v3())
     if cls == "ft":
         return ForceTorque3D(100, n, _v3(), _eye(), _v3())
@@ -257,7 +261,7 @@ class World2:
         if kind == "exc":
             return None, f"encoding raised {type(data).__name__}: {data}"
         try:
-            C, _r = rc.decode(CODE[a.cls], FMT[a.cls], data)
+            C, _r = rc.decode(CODE[a.cls], a.fmt, data)
         except rc.LayoutError as e:
             return None, f"encoding is not parseable: {e}"
         if a.cls == "emg":
@@ -410,7 +414,10 @@ class World2:
         ids = op.get("ids")
         self.actors[op["a"]] = a
         if ids is None or self.cls not in ("optical", "fpcal"):
-            kind, o = self.call(new_block, self.cls, self.n)
+            if self.cls == "data3d" and op.get("fmt") == 2:
+                a.fmt = 2  # two live instances of one class with different formats
+                self.stats["create_other_format"] += 1
+            kind, o = self.call(new_block, self.cls, self.n, a.fmt)
             if kind == "exc":
                 raise HarnessError(f"constructor raised {o!r}")
             a.obj = o
@@ -462,11 +469,12 @@ class World2:
         for k in targets:
             a = Actor(self.cls, self.n)
             cls_obj = type(src.obj)
-            kind, o = self.call(lambda: cls_obj._build(io.BytesIO(data), FMT[self.cls]))
+            kind, o = self.call(lambda: cls_obj._build(io.BytesIO(data), src.fmt))
             if kind == "exc":
                 self.v(self.primary(src), "I-obj", "decode-of-own-encoding-raised", repr(o)[:160])
                 return
             a.obj = o
+            a.fmt = src.fmt
             a.model = list(src.model)
             a.links = [list(x) for x in src.links]
             a.items = {}
@@ -619,6 +627,8 @@ class World2:
         if a.cls == "fpcal":
             if by == "object" and iid in a.items and ids.count(iid) == 1:
                 return lambda: o.remove_platform(a.items[iid])
+            if by == "negative":
+                return lambda: o.remove_platform(k - len(ids))  # the same item, counted from the end
             return lambda: o.remove_platform(k)
         if a.cls == "optical":
             return lambda: o.channels.pop(k)
@@ -778,6 +788,18 @@ class World2:
                 ids = [a.model[k][1] for k, _t in kept]
                 new_model = [(None, i) for i in ids]
                 payload = filter(lambda t, keep_ids=keep_ids: id(t) in keep_ids, a.obj.tracks)
+            elif how in ("self", "chain_self", "chain_own") and a.cls in ("data3d", "ft") and not faulty:
+                # the new list is described in terms of the block itself: the block as the iterable,
+                # or the block's tracks followed by new ones (itertools.chain reads its parts lazily)
+                import itertools
+                cur = list(a.obj.tracks)
+                cur_ids = [i for _c, i in a.model]
+                if how == "self":
+                    payload, items, ids = a.obj, cur, cur_ids
+                else:
+                    payload = itertools.chain(a.obj if how == "chain_self" else a.obj.tracks, list(items))
+                    items, ids = cur + items, cur_ids + ids
+                new_model = [(None, i) for i in ids]
             self.stats["assign_as_" + how] += 1
         a.assigned_list = payload if isinstance(payload, list) else None
         old_ids = [i for _c, i in a.model]
@@ -788,7 +810,17 @@ class World2:
                 self.v("C16", "I-obj", "track-list-unreadable", repr(old_objs)[:120])
                 return
         attr = "tracks" if a.cls in ("data3d", "ft") else "platforms"
-        kind, val = self.call(setattr, a.obj, attr, payload)
+        if op.get("iadd") and a.cls in ("data3d", "ft") and raise_after is None and isinstance(payload, list):
+            # b.tracks += [...]: an assignment like any other (getter, in-place add, setter)
+            def iadd(o=a.obj, extra=payload):
+                o.tracks += extra
+            if not faulty:
+                items, ids = list(old_objs) + items, old_ids + ids
+                new_model = [(None, i) for i in ids]
+            self.stats["assign_by_iadd"] += 1
+            kind, val = self.call(iadd)
+        else:
+            kind, val = self.call(setattr, a.obj, attr, payload)
         self.note("assign", kind, faulty)
         self.transitions.add((a.cls, len(a.model), "assign", kind, faulty))
         if a.cls in ("data3d", "ft"):
@@ -922,7 +954,7 @@ class World2:
         """Marker links are a public attribute of a 3D block: a user appends to it (creating it
         if the block has none).  No other instance may see the link."""
         a = self.actor(op["a"])
-        if a is None or a.obj is None or a.cls != "data3d":
+        if a is None or a.obj is None or a.cls != "data3d" or a.fmt != 1:
             return self.skip()
         pair = (op.get("k", 0) % 5, (op.get("k", 0) + 1) % 5)
 
